@@ -4,7 +4,11 @@ package vh
 
 import (
 	"encoding/json"
+	"fmt"
 	"net/http"
+	"strings"
+
+	"github.com/getkin/kin-openapi/openapi3"
 	"net/url"
 )
 
@@ -21,4 +25,92 @@ func verifJSONCopy(dst, src any) error {
 		return err
 	}
 	return json.Unmarshal(b, dst)
+}
+
+// verifSchemaAccepts natively: kin-openapi validates the request parts against
+// the schemas of the emitted document.
+func verifSchemaAccepts(doc, op string, parts map[string]any) bool {
+	// goa writes numeric exclusiveMinimum/exclusiveMaximum (JSON Schema draft-06
+	// style) into its 3.0.x documents; kin-openapi only loads the boolean 3.0
+	// form, so rewrite them to the equivalent {minimum, exclusiveMinimum:true}
+	var tree any
+	if err := json.Unmarshal([]byte(doc), &tree); err != nil {
+		panic(err)
+	}
+	var fix func(n any)
+	fix = func(n any) {
+		switch x := n.(type) {
+		case map[string]any:
+			for _, k := range [][2]string{{"exclusiveMinimum", "minimum"}, {"exclusiveMaximum", "maximum"}} {
+				if v, ok := x[k[0]].(float64); ok {
+					x[k[1]], x[k[0]] = v, true
+				}
+			}
+			for _, v := range x {
+				fix(v)
+			}
+		case []any:
+			for _, v := range x {
+				fix(v)
+			}
+		}
+	}
+	fix(tree)
+	fixed, _ := json.Marshal(tree)
+	d, err := openapi3.NewLoader().LoadFromData(fixed)
+	if err != nil {
+		panic(fmt.Sprintf("openapi document does not load: %v", err))
+	}
+	fields := strings.SplitN(op, " ", 2)
+	item := d.Paths.Find(fields[1])
+	if item == nil {
+		return false
+	}
+	o := item.GetOperation(strings.ToUpper(fields[0]))
+	if o == nil {
+		return false
+	}
+	generic := func(v any) any {
+		b, err := json.Marshal(v)
+		if err != nil {
+			panic(err)
+		}
+		var out any
+		if err := json.Unmarshal(b, &out); err != nil {
+			panic(err)
+		}
+		return out
+	}
+	for _, pr := range o.Parameters {
+		p := pr.Value
+		v, present := parts[p.In+":"+p.Name]
+		if !present || v == nil {
+			if p.Required {
+				return false
+			}
+			continue
+		}
+		if p.Schema != nil && p.Schema.Value.VisitJSON(generic(v)) != nil {
+			return false
+		}
+	}
+	if o.RequestBody != nil {
+		rb := o.RequestBody.Value
+		if _, missing := parts["body-missing"]; missing {
+			return !rb.Required
+		}
+		if _, bad := parts["body-malformed"]; bad {
+			return false
+		}
+		body, present := parts["body"]
+		if !present || body == nil {
+			return !rb.Required
+		}
+		if mt := rb.Content.Get("application/json"); mt != nil && mt.Schema != nil {
+			if mt.Schema.Value.VisitJSON(generic(body)) != nil {
+				return false
+			}
+		}
+	}
+	return true
 }
